@@ -167,7 +167,16 @@ fn cells(t: &mut Tape, obs: &mut Obs) -> R {
 }
 
 fn gen_msg(t: &mut Tape) -> MMsg {
-    match t.weighted(&[8, 2, 2, 1, 1]) {
+    match t.weighted(&[8, 2, 2, 1, 1, 2]) {
+        5 => {
+            // constructed ClientHello whose session id has a length no parser would produce (the state machine takes any TlsMessage)
+            let mut h = gen_hs_kind(t, 1, 100);
+            let n = t.pick(&[33usize, 255, 256, 257, 512, 768, 1024, 65535, 65536, 65537]);
+            if let MHs::ClientHello { sid, .. } = &mut h {
+                *sid = Some(vec![0x5a; n]);
+            }
+            MMsg::Hs(h)
+        }
         0 => MMsg::Hs(gen_hs(t, 300)),
         1 => MMsg::Ccs,
         2 => MMsg::Alert(if t.bool() { t.pick(&[1u8, 2]) } else { t.u8() }, t.u8()),
